@@ -58,6 +58,8 @@ def check(run):
     session(R)
     from . import C05
     C05.awaitables_fresh(R, RID='C17.closure')     # read requests are per read, not module / parser-lifetime objects
+    from .common import oneshot_fields
+    oneshot_fields(R, 'C17.closure')               # what a second connect() reads again can be read again
 
 
 def _is_fresh_state(R, ctx, v):
